@@ -10,6 +10,13 @@
  *   ARGVPROBE_SIGNAL=<n>        give signal n its default disposition, unblock
  *                               it and send it to itself (no core file)
  *   ARGVPROBE_EXIT=<code>       exit with that code (default 0)
+ *   ARGVPROBE_ENVOUT=<file>     dump the environment as well, every string
+ *                               followed by a NUL byte
+ *   ARGVPROBE_CLOSEFDS=1        close stdin, stdout and stderr before leaving
+ *   ARGVPROBE_CORE=1            with ARGVPROBE_SIGNAL: leave the core file size
+ *                               limit at its hard maximum, so that a signal whose
+ *                               default action dumps core sets the core flag of
+ *                               the wait status (the file lands in the cwd)
  *
  * It is installed under several names (argvprobe, sh) so that the script
  * template "sh -eu ..." of the script modes reaches it through PATH.
@@ -21,6 +28,23 @@
 #include <stdlib.h>
 #include <string.h>
 #include <unistd.h>
+
+extern char **environ;
+
+static void
+dump(int fd, const char *s)
+{
+	size_t len = strlen(s) + 1;
+	size_t off = 0;
+
+	while (off < len) {
+		ssize_t n = write(fd, s + off, len - off);
+
+		if (n <= 0)
+			_exit(99);
+		off += (size_t)n;
+	}
+}
 
 int
 main(int argc, char *argv[])
@@ -35,20 +59,23 @@ main(int argc, char *argv[])
 	fd = open(out, O_WRONLY | O_CREAT | O_EXCL, 0644);
 	if (fd == -1)
 		_exit(98);
-	for (i = 0; i < argc; i++) {
-		size_t len = strlen(argv[i]) + 1;
-		size_t off = 0;
-
-		while (off < len) {
-			ssize_t n = write(fd, argv[i] + off, len - off);
-
-			if (n <= 0)
-				_exit(99);
-			off += (size_t)n;
-		}
-	}
+	for (i = 0; i < argc; i++)
+		dump(fd, argv[i]);
 	if (close(fd) == -1)
 		_exit(99);
+
+	v = getenv("ARGVPROBE_ENVOUT");
+	if (v != NULL) {
+		char **e;
+
+		fd = open(v, O_WRONLY | O_CREAT | O_EXCL, 0644);
+		if (fd == -1)
+			_exit(98);
+		for (e = environ; *e != NULL; e++)
+			dump(fd, *e);
+		if (close(fd) == -1)
+			_exit(99);
+	}
 
 	v = getenv("ARGVPROBE_SLEEP");
 	if (v != NULL && atoi(v) > 0) {
@@ -58,12 +85,23 @@ main(int argc, char *argv[])
 			left = sleep(left);
 	}
 
+	v = getenv("ARGVPROBE_CLOSEFDS");
+	if (v != NULL && atoi(v) > 0) {
+		close(0);
+		close(1);
+		close(2);
+	}
+
 	v = getenv("ARGVPROBE_SIGNAL");
 	if (v != NULL && atoi(v) > 0) {
 		struct rlimit rl = { 0, 0 };
 		sigset_t set;
 		int signo = atoi(v);
+		const char *core = getenv("ARGVPROBE_CORE");
 
+		if (core != NULL && atoi(core) > 0 &&
+		    getrlimit(RLIMIT_CORE, &rl) == 0)
+			rl.rlim_cur = rl.rlim_max;
 		setrlimit(RLIMIT_CORE, &rl);
 		signal(signo, SIG_DFL);
 		sigemptyset(&set);
